@@ -11,6 +11,7 @@
 #include "private/private.h"
 #include "private/misc.h"
 #include "private/debug.h"
+#include "private/verif.h"
 
 #ifdef HAVE_STRINGS_H
 #include <strings.h>
@@ -303,7 +304,7 @@ hwloc__type_match(const char *string,
 {
   const char *s, *t;
   unsigned i;
-  for(i=0, s=string, t=type; ; i++, s++, t++) {
+  for(i=0, s=string, t=type; ; i++, s++, t++) HWLOC_VERIF_LOOP(hwloc__type_match_1) {
     if (!*s) {
       /* string ends before type */
       if (i<minmatch)
@@ -361,7 +362,7 @@ hwloc__osdev_type_sscanf(const char *string, hwloc_obj_osdev_types_t *ostype)
 static int
 hwloc__osdev_types_sscanf(const char *string, unsigned long *ostype)
 {
-  while (1) {
+  while (1) HWLOC_VERIF_LOOP(hwloc__osdev_types_sscanf_1) {
     unsigned long new;
     const char *next;
     if (hwloc__osdev_type_sscanf(string, &new))
@@ -584,6 +585,7 @@ hwloc__osdev_type_snprintf_short(char * __hwloc_restrict string, size_t size,
 {
   unsigned i;
   for(i=0; i<_HWLOC_OSDEV_TYPE_NAMES_NR; i++)
+      HWLOC_VERIF_LOOP(hwloc__osdev_type_snprintf_short_1)
     if (ostype & names[i].type)
       return hwloc_snprintf(string, size, "%s", longnames ? names[i].longname : names[i].name); /* -Wformat-security and OSX want "%s" first because non-string-literal argument */
   /* ostype==0 or unknown */
@@ -613,7 +615,7 @@ hwloc__osdev_type_snprintf_normal(char * __hwloc_restrict string, size_t size,
      * and unknown bits (e.g. from a newer XML) must not make us loop forever
      */
     unsigned i;
-    for(i=0; i<_HWLOC_OSDEV_TYPE_NAMES_NR; i++) {
+    for(i=0; i<_HWLOC_OSDEV_TYPE_NAMES_NR; i++) HWLOC_VERIF_LOOP(hwloc__osdev_type_snprintf_normal_1) {
       if (ostype & names[i].type) {
         res = hwloc_snprintf(tmp, tmplen, "%c%s", prefix, longnames ? names[i].longname : names[i].name);
         if (res < 0)
@@ -820,7 +822,7 @@ hwloc_obj_attr_snprintf(char * __hwloc_restrict string, size_t size, hwloc_obj_t
   /* printf infos */
   if (verbose) {
     unsigned i;
-    for(i=0; i<obj->infos.count; i++) {
+    for(i=0; i<obj->infos.count; i++) HWLOC_VERIF_LOOP(hwloc_obj_attr_snprintf_1) {
       struct hwloc_info_s *info = &obj->infos.array[i];
       const char *quote;
       if (strchr(info->value, ' '))
